@@ -22,24 +22,10 @@
 using namespace vh;
 typedef std::vector<uint32_t> CPS;
 // Memory bound.  ASan records the allocation stack of every malloc in its stack depot.  Below this engine's own frames lie
-// librapidcheck / ICU frames compiled without frame pointers, so deep contexts pick up ever-new garbage frames and the depot
-// grows without bound: measured on sub-check (1), per 8000 cases: +4 MB at malloc_context_size=6, +10 MB at 8, +45 MB at 10,
-// ~+550 MB at the default 30.  Six frames still show every library frame of a report (cif_map_set_item <- cif_packet_set_item
-// <- run_lookup ...).  Defaults first; if the driver's ASAN_OPTIONS asks for a deeper context the engine re-executes itself
-// once with the value capped (a thorough worker then peaks near 250 MB instead of 0.8 .. 4 GB).
-#include <unistd.h>
+// librapidcheck / ICU frames compiled without frame pointers, so deep contexts pick up ever-new garbage frames and the depot grows
+// without bound (per 8000 cases of sub-check 1: +4 MB at malloc_context_size=6, +10 MB at 8, +45 MB at 10, ~+550 MB at 30).
+// The driver sets malloc_context_size=6 in ASAN_OPTIONS; this is only the matching default for runs by hand.
 extern "C" const char *__asan_default_options() { return "malloc_context_size=6:quarantine_size_mb=32"; }
-static void cap_asan_context(char **argv) {
-    const char *o = getenv("ASAN_OPTIONS");
-    if (!o || getenv("C09_ASAN_CAPPED")) return;
-    std::string s = o; const std::string key = "malloc_context_size=";
-    size_t p = s.find(key);
-    if (p == std::string::npos || atoi(s.c_str() + p + key.size()) <= 6) return;
-    size_t e = s.find(':', p);
-    s.replace(p, (e == std::string::npos ? s.size() : e) - p, key + "6");
-    setenv("ASAN_OPTIONS", s.c_str(), 1); setenv("C09_ASAN_CAPPED", "1", 1);
-    execv("/proc/self/exe", argv);   // on failure just carry on with the deeper context
-}
 
 // ------------------------------------------------------------------------------------------------ small helpers
 static CPS to_cps(const ustr &s) {   // lenient: an unpaired surrogate is delivered as itself
@@ -77,7 +63,7 @@ static Verdict chars_verdict(const ustr &s, bool key, int *ncp = nullptr) {
         n++;
         if (c < 0x20) { if (key && (c == 9 || c == 10 || c == 13)) continue; return V_BAD; }   // C0 control / whitespace
         if (c == 0x20) { if (key) continue; return V_BAD; }
-        if (c == 0x7F || is_c1(c)) return V_BAD;                 // DEL and the C1 controls (F-C1CTRL)
+        if (c == 0x7F || is_c1(c)) return V_BAD;                 // DEL and the C1 controls
         if (is_nonchar(c)) return V_BAD;
         if (c == 0xFEFF) any = true;
     }
@@ -98,6 +84,10 @@ static Verdict code_verdict(const ustr &s) {
     return v;
 }
 static Verdict key_verdict(const ustr &s) { return chars_verdict(s, true); }
+static int cplen(const ustr &s) { int n = 0; for (char16_t c : s) if (!(c >= 0xDC00 && c <= 0xDFFF)) n++; return n; }
+// Fixed finding F-NORMLEN (regression witness replay/C09/fixed-F-NORMLEN.case): cif_container_set_value() refused a valid new name whose
+// *normalised* form is longer than 2048 code points when it had to start the container's scalar loop.  Label only.
+static bool normlen_class(const ustr &name) { return name_verdict(name) != V_BAD && cplen(cm::norm_name(name)) > 2048; }
 static const char *vname(Verdict v) { return v == V_OK ? "valid" : v == V_BAD ? "invalid" : "unconstrained"; }
 // "" when rc is what the verdict allows
 static std::string expect_v(int rc, Verdict v, int badcode, const std::string &what) {
@@ -261,10 +251,11 @@ static std::string run_lookup(const CaseFile &c) {
     bool item = kind >= 2;
     for (const ustr *s : {&a, &pr[0], &pr[1]}) {
         Verdict v = item ? name_verdict(*s) : code_verdict(*s);
-        if (v != V_OK) return has_c1(*s) ? "bad case file: C1 control in a name (see mode valid / F-C1CTRL)" : "bad case file: lookup strings must be valid";
+        if (v != V_OK) return "bad case file: lookup strings must be valid";
         if ((*s)[0] == 0xFEFF) return "bad case file: leading U+FEFF";
     }
     label(std::string("lookup:") + KIND[kind]);
+    if (item && (normlen_class(a) || normlen_class(pr[0]) || normlen_class(pr[1]))) label(std::string("lookup:name-with-normalised-form>2048:") + KIND[kind]);
     ustr na = cm::norm_name(a);
     for (int i = 0; i < 2; i++) {
         bool eq = cm::norm_name(pr[i]) == na;
@@ -452,7 +443,7 @@ static std::string keys_match(cif_value_tp *t, const std::map<ustr, ustr> &model
 }
 static std::string run_keys(const CaseFile &c) {
     ustr a = deser_u16(c.get("a")), pr[2] = {deser_u16(c.get("b")), deser_u16(c.get("n"))};
-    for (const ustr *s : {&a, &pr[0], &pr[1]}) if (key_verdict(*s) != V_OK) return has_c1(*s) ? "bad case file: C1 control in a key (see mode valid / F-C1CTRL)" : "bad case file: keys must be valid";
+    for (const ustr *s : {&a, &pr[0], &pr[1]}) if (key_verdict(*s) != V_OK) return "bad case file: keys must be valid";
     ustr na = cm::nfc(a);
     for (int i = 0; i < 2; i++) {
         bool eq = cm::nfc(pr[i]) == na, ceq = cm::norm_name(pr[i]) == cm::norm_name(a);
@@ -513,6 +504,8 @@ static std::string run_valid(const CaseFile &c) {
     label(std::string("valid:code-") + vname(vc)); label(std::string("valid:key-") + vname(vk));
     for (auto &nm : nms) label(std::string("valid:name-") + vname(name_verdict(nm)));
     { int n = 0; chars_verdict(s, true, &n); if (n >= 2040) label("valid:length>=2040"); }
+    if (has_c1(s)) label("valid:has-C1-control");
+    for (auto &nm : nms) if (normlen_class(nm)) { label("valid:name-with-normalised-form>2048"); break; }
     ustr fixed = u"_c09.fixed";
     for (auto &nm : nms) if (cm::norm_name(nm) == cm::norm_name(fixed)) fixed += u"2";
 
@@ -672,7 +665,7 @@ static std::string run_sweep(const CaseFile &c) {
         if (cif_create(&cif) != CIF_OK || cif_create_block(cif, u"c09s", &blk) != CIF_OK) msg = "cannot set up a managed CIF";
     }
     for (long cp = lo; cp <= hi && msg.empty(); cp += step) {
-        if (is_c1((uint32_t) cp) && !c.geti("strict")) { count_excluded("F-C1CTRL"); continue; }
+        if (is_c1((uint32_t) cp)) note("sweep_c1_controls", 1);
         msg = sweep_cp((uint32_t) cp, normed); tested++;
         if (msg.empty() && cif) {
             ustr code = cp_str((uint32_t) cp) + u"a"; Verdict v = code_verdict(code); cif_container_tp *h = nullptr;
@@ -714,7 +707,7 @@ static const std::vector<uint32_t> MARKS = {0x301, 0x323, 0x327, 0x345, 0x308, 0
                                             0x5B0, 0x93C, 0x3099, 0xF74, 0x302A, 0x302E, 0x20D0, 0x653, 0x1D165, 0x1E8D0};
 static const std::vector<uint32_t> BASES = {'a', 'e', 'o', 'u', 'A', 'E', 'i', 'I', 'j', 'J', 's', 'S', 'k', 'K', 0x3B1, 0x3C9, 0x391, 0x3A9, 0x3B7, 0x397, 0x3B9, 0x1FB3, 0x1FBC, 0x212B, 0x212A, 0x2126,
                                             0x130, 0x131, 0x1F0, 0x17F, 0xC5, 0xE5, 0x1EA1, 0xE7, 0xC7, 0x1E9E, 0xDF, 0x3C5, 0x3A5};
-// one code point that is valid in names, codes and keys (C1 controls can appear: the case builders replace and count them)
+// one code point that is valid in names, codes and keys
 static Gen<uint32_t> name_cp() {
     auto ascii = rc::gen::map(g::range(0, 61), [](int i) { return (uint32_t) "abcdefghijklmnopqrstuvwxyzABCDEFGHIJKLMNOPQRSTUVWXYZ0123456789"[i]; });
     auto punct = of({'_', '.', '-', '[', ']', '$', '#', '\'', '"', ';', '{', '}', ':', '/', '~', '!', '?', '\\'});
@@ -727,8 +720,8 @@ static Gen<uint32_t> name_cp() {
                       0x2F800, 0x2FA1D, 0x9CB, 0x1026, 0x110AB, 0x1109A, 0xF43, 0xF73, 0xF75, 0xF81, 0x1B06, 0x22ED});
     auto supp = of({0x10400, 0x10428, 0x1044F, 0x1E900, 0x1E922, 0x1E943, 0x10C80, 0x10CC0, 0x118A0, 0x118C0, 0x16E40, 0x16E60, 0x104B0, 0x104D8, 0x1D4B3, 0x1F600, 0x20000, 0x10FFFD, 0x10000, 0xE0001,
                     0x10570, 0x10597});
-    auto misc = of({0xA0, 0xAD, 0x200D, 0x200C, 0x2028, 0x2029, 0x3000, 0xFFFD, 0xE000, 0xFDCF, 0xFDF0, 0xD7FF, 0xFFFC, 0x2060, 0x4E2D, 0x410, 0x44F, 0x430, 0x85, 0x9F, 0x80, 0x7E, 0x21});
-    auto anybmp = rc::gen::map(g::range(0x80, 0xFFFD), [](int c) { return (uint32_t) ((c >= 0xD800 && c <= 0xDFFF) ? 0x1E9E : (c >= 0xFDD0 && c <= 0xFDEF) ? 0xFDCF : c == 0xFEFF ? 0x2060 : c); });
+    auto misc = of({0xA0, 0xAD, 0x200D, 0x200C, 0x2028, 0x2029, 0x3000, 0xFFFD, 0xE000, 0xFDCF, 0xFDF0, 0xD7FF, 0xFFFC, 0x2060, 0x4E2D, 0x410, 0x44F, 0x430, 0x7E, 0x21});
+    auto anybmp = rc::gen::map(g::range(0x80, 0xFFFD), [](int c) { return (uint32_t) (c <= 0x9F ? c + 0x20 : (c >= 0xD800 && c <= 0xDFFF) ? 0x1E9E : (c >= 0xFDD0 && c <= 0xFDEF) ? 0xFDCF : c == 0xFEFF ? 0x2060 : c); });
     auto anysupp = rc::gen::map(g::range(0x10000, 0x10FFFD), [](int c) { return (uint32_t) (((c & 0xFFFE) == 0xFFFE) ? c - 2 : c); });
     return rc::gen::weightedOneOf<uint32_t>({{20, ascii}, {3, punct}, {8, rng(0xC0, 0x24F)}, {10, greek}, {13, special}, {8, hangul}, {14, of(MARKS)}, {8, single}, {6, supp}, {4, misc}, {3, anybmp}, {3, anysupp}});
 }
@@ -820,32 +813,25 @@ static ustr near_miss(const ustr &a, size_t from, const Cert &differs) {
         } else if (op == 3 && n > 1) cand.erase(cand.begin() + (long) i);
         else if (op == 4 && n > 1) std::swap(cand[i], cand[i + 1 < cand.size() ? i + 1 : from]);   // transpose two characters
         else cand.push_back(*name_cp());
-        for (auto &c : cand) if (is_c1(c)) c += 0x20;
         ustr s = from_cps(cand);
         if (differs(s)) return s;
     }
     return a + u"x";
 }
-// replace C1 controls (known finding F-C1CTRL), counting the exclusions
-static void strip_c1(CPS &v) { for (auto &c : v) if (is_c1(c)) { count_excluded("F-C1CTRL"); c += 0x20; } }
 } // namespace gg
 
 // ================================================================================================ case builders (inside rapidcheck)
 // like g::chance, but shrinks towards "no" (g::chance shrinks towards "yes"): for options that make a case bigger
 static bool rare(int pct) { return *g::range(0, 99) >= 100 - pct; }
-static int cplen(const ustr &s) { int n = 0; for (char16_t c : s) if (!(c >= 0xDC00 && c <= 0xDFFF)) n++; return n; }
 static bool differ_case_and_form(const ustr &a, const ustr &b) { return cm::nfd(a) != cm::nfd(b) && gg::str_map(a, 2) != gg::str_map(b, 2); }
 // pad three spellings with ASCII so that the longest reaches `target` code points (b gets the pad in upper case)
-// Known finding F-NORMLEN: cif_container_set_value() refuses (CIF_INVALID_ITEMNAME) a valid new name whose *normalised* form is
-// longer than 2048 code points when it has to start the container's scalar loop (container.c:367 re-validates the normalised name).
-static bool normlen_class(const ustr &name) { return name_verdict(name) != V_BAD && cplen(cm::norm_name(name)) > 2048; }
 static void pad3(ustr &a, ustr &b, ustr &n, int target, bool upper_b) {
     int longest = std::max(cplen(a), std::max(cplen(b), cplen(n))), pad = target - longest;
     for (int i = 0; i < pad; i++) { char16_t ch = (char16_t) ('a' + i % 26); a += ch; n += ch; b += upper_b ? (char16_t) (ch - 32) : ch; }
 }
 static CaseFile build_norm() {
-    CPS ca = gg::core(6); gg::strip_c1(ca);
-    if (rare(10)) { ca.insert(ca.begin() + *g::range(0, (int) ca.size()), *gg::of({0x20, 0x9, 0xA, 0xD, 0x7F, 0x1, 0xFEFF, 0xFFFD})); }   // cif_normalize takes any text
+    CPS ca = gg::core(6);
+    if (rare(10)) { ca.insert(ca.begin() + *g::range(0, (int) ca.size()), *gg::of({0x20, 0x9, 0xA, 0xD, 0x7F, 0x1, 0xFEFF, 0xFFFD, 0x85, 0x9F})); }   // cif_normalize takes any text
     if (rare(8)) { CPS one = ca; int rep = *g::range(2, 120); for (int i = 0; i < rep; i++) ca.insert(ca.end(), one.begin(), one.end()); }   // long: buffer growth paths
     ustr a = from_cps(ca), na = cm::norm_name(a);
     ustr b = gg::variant(a, 0, true, [&](const ustr &s) { return cm::norm_name(s) == na; });
@@ -856,7 +842,7 @@ static CaseFile build_norm() {
 }
 static CaseFile build_lookup() {
     int kind = *g::range(0, 4); bool item = kind >= 2; size_t from = item ? 1 : 0;
-    CPS ca = gg::core(5); gg::strip_c1(ca);
+    CPS ca = gg::core(5);
     if (item) ca.insert(ca.begin(), (uint32_t) '_');
     ustr a = from_cps(ca), na = cm::norm_name(a);
     auto ok = [&](const ustr &s) { return (item ? name_verdict(s) : code_verdict(s)) == V_OK; };
@@ -864,8 +850,6 @@ static CaseFile build_lookup() {
     ustr n = gg::near_miss(a, from, [&](const ustr &s) { return ok(s) && cm::norm_name(s) != na; });
     if (rare(6)) {
         pad3(a, b, n, (item ? 2048 : 2043) - *g::range(0, 2), *g::chance(70));
-        int excess = 0; for (const ustr *s : {&a, &b, &n}) excess = std::max(excess, cplen(cm::norm_name(*s)) - 2048);
-        if (item && excess > 0) { count_excluded("F-NORMLEN"); for (ustr *s : {&a, &b, &n}) s->resize(s->size() - (size_t) excess); }   // the tail is ASCII padding
     }
     CaseFile c; c.set("mode", "lookup"); c.seti("kind", kind); c.set("a", ser_u16(a)); c.set("b", ser_u16(b)); c.set("n", ser_u16(n));
     return c;
@@ -873,7 +857,7 @@ static CaseFile build_lookup() {
 static CaseFile build_keys() {
     CPS ca;
     if (*g::range(0, 99) >= 4) {
-        ca = gg::core(4); gg::strip_c1(ca);
+        ca = gg::core(4);
         int ws = *g::range(0, 2);
         for (int i = 0; i < ws; i++) ca.insert(ca.begin() + *g::range(0, (int) ca.size()), *gg::of({0x20, 0x20, 0x9, 0xA, 0xD}));
     }
@@ -891,7 +875,7 @@ static CPS invalid_ingredient() {
     if (k < 20) return {*gg::of({0x20, 0x9, 0xA, 0xD})};
     if (k < 34) return {*gg::rng(0x1, 0x1F)};
     if (k < 42) return {0x7F};
-    if (k < 50) return {*gg::rng(0x80, 0x9F)};                       // replaced and counted (F-C1CTRL)
+    if (k < 50) return {*gg::rng(0x80, 0x9F)};                       // C1 controls
     if (k < 58) return {*gg::rng(0xFDD0, 0xFDEF)};
     if (k < 68) return {*gg::of({0xFFFE, 0xFFFF, 0x1FFFE, 0x1FFFF, 0x10FFFE, 0x10FFFF, 0x5FFFE, 0xEFFFF, 0x2FFFE, 0xFFFFF})};
     if (k < 76) return {*gg::rng(0xD800, 0xDBFF)};
@@ -920,13 +904,7 @@ static CaseFile build_valid() {
         for (size_t i = 0; (int) cs.size() < total; i++) cs.push_back(pat[i % pat.size()]);
         if (shape == 5) { cs.resize(cs.size() - 1); insert_bad(cs, nm ? 1 : 0); if ((int) cs.size() > total) cs.resize((size_t) total); }
     }
-    gg::strip_c1(cs);
     for (auto &cp : cs) if (cp == 0) cp = 1;
-    { ustr s = from_cps(cs);
-      if (normlen_class(s) || normlen_class(u"_" + s)) {   // keep the length, drop the characters whose normalised form is longer than they are
-          count_excluded("F-NORMLEN");
-          for (auto &cp : cs) if (!is_surr(cp) && cplen(cm::norm_name(cp_str(cp))) > 1) cp = 'x';
-      } }
     CaseFile c; c.set("mode", "valid"); c.set("s", ser_u16(from_cps(cs)));
     return c;
 }
@@ -940,7 +918,7 @@ static std::string brief(const CaseFile &c) {
 }
 // one generated case: count it, classify it, run it
 static void drive(const CaseFile &c) {
-    begin_case(c);
+    VH_BEGIN(c);
     std::string mode = c.get("mode");
     if (mode == "valid") {
         ustr s = deser_u16(c.get("s"));
@@ -1007,7 +985,6 @@ static bool run_sweeps() {
 }
 
 int main(int argc, char **argv) {
-    cap_asan_context(argv);
     for (int i = 1; i + 1 < argc; i++) {
         if (!strcmp(argv[i], "--workers-quick")) g_workers_quick = atoi(argv[i + 1]);
         if (!strcmp(argv[i], "--workers-thorough")) g_workers_thorough = atoi(argv[i + 1]);
@@ -1028,12 +1005,6 @@ int main(int argc, char **argv) {
         return ok;
     };
     e.replay = run_case;
-    e.classify = [](const CaseFile &c) {
-        if (c.get("mode") == "valid") { ustr s = deser_u16(c.get("s")); if (!has_c1(s) && (normlen_class(s) || normlen_class(u"_" + s))) return std::string("F-NORMLEN"); }
-        if (c.get("mode") == "lookup" && c.geti("kind") == 2 && normlen_class(deser_u16(c.get("a")))) return std::string("F-NORMLEN");
-        for (const char *k : {"a", "b", "n", "s"}) if (c.kv.count(k) && has_c1(deser_u16(c.get(k)))) return std::string("F-C1CTRL");
-        if (c.get("mode") == "sweep" && c.geti("lo") == c.geti("hi") && is_c1((uint32_t) c.geti("lo"))) return std::string("F-C1CTRL");
-        return std::string();
-    };
+    e.classify = [](const CaseFile &) { return std::string(); };   // no open known finding: F-C1CTRL, F-NORMLEN, F-PKTKEY-UAF are fixed
     return engine_main(argc, argv, e);
 }
